@@ -21,6 +21,9 @@ type methodFact struct {
 	Locks    bool // body starts with dsc.lock() and defers an unlock
 	Touches  bool // reads or writes store state (dsc.ds.*) or calls an *Unlocked helper
 	Unlocked bool // name says the caller holds the lock
+	Sections int  // lock acquisitions in the body: dsc.lock()/acquireExclusive() calls plus calls of other locking methods
+	body     *ast.BlockStmt
+	recv     string
 }
 
 func isSelCall(e ast.Expr, recv, name string) bool {
@@ -144,13 +147,30 @@ func factgenMain(args []string) {
 				}
 				return true
 			})
+			m.body, m.recv = fd.Body, recv
 			methods = append(methods, m)
 			if m.Locks {
 				lockingMethod[m.Name] = true
 			}
 		}
 	}
-	// methods that lock through another locking method (thin wrappers)
+	// how many lock sections a method consists of: two sections in one method make the command it
+	// implements two steps, although every access is made under the lock
+	for i := range methods {
+		m := &methods[i]
+		ast.Inspect(m.body, func(n ast.Node) bool {
+			if c, ok := n.(*ast.CallExpr); ok {
+				if isSelCall(c, m.recv, "lock") || isSelCall(c, m.recv, "acquireExclusive") {
+					m.Sections++
+				} else if s, ok := c.Fun.(*ast.SelectorExpr); ok {
+					if id, ok := s.X.(*ast.Ident); ok && id.Name == m.recv && lockingMethod[s.Sel.Name] {
+						m.Sections++
+					}
+				}
+			}
+			return true
+		})
+	}
 	for _, af := range parsed {
 		for _, d := range af.Decls {
 			fd, ok := d.(*ast.FuncDecl)
@@ -184,6 +204,15 @@ func factgenMain(args []string) {
 			sep = ""
 		}
 		fmt.Fprintf(&sb, "  (%q, %v, %v, %v)%s\n", m.Name, m.Locks, m.Touches, m.Unlocked, sep)
+	}
+	sb.WriteString("].\n\n(* (method of dataStoreCommand, lock acquisitions in its body: lock()/acquireExclusive() calls and calls of locking methods) *)\n")
+	sb.WriteString("Definition method_sections : list (string * nat) := [\n")
+	for i, m := range methods {
+		sep := ";"
+		if i == len(methods)-1 {
+			sep = ""
+		}
+		fmt.Fprintf(&sb, "  (%q, %d)%s\n", m.Name, m.Sections, sep)
 	}
 	sb.WriteString("].\n\n(* (command handler, number of locking store methods it calls directly) *)\n")
 	sb.WriteString("Definition handler_sections : list (string * nat) := [\n")
